@@ -201,7 +201,8 @@ def extract_vector(trace):
     seq = []
     for st in trace:
         # every drawing primitive assigns its fresh value to a local `v` exactly once per call before logging it
-        if st.get('stepType') == 'assignment' and st.get('lhs') == 'v' and 'data' in st.get('value', {}) \
+        if st.get('stepType') == 'assignment' and st.get('lhs') == 'v' and st.get('assignmentType') != 'actual-parameter' \
+                and 'data' in st.get('value', {}) \
                 and st.get('sourceLocation', {}).get('function') in ('vf_nondet_u8', 'vf_nondet_u16', 'vf_nondet_usize', 'vf_havoc_c'):
             seq.append(_num(st['value']))
     if seq:
